@@ -481,6 +481,8 @@ var c04Hands = []c04Hand{
 	{"c04:ifempty-of-range-loop", "{namespace h}\n/** @param n */\n{template .t}{foreach $i in range($n)}[{$i}]{ifempty}nothing{/foreach}|{for $i in range(2, $n)}{$i}{ifempty}E{let $i: 'x' /}{$i}{/for}|{foreach $i in range(0, 3, 2)}{$i}{ifempty}no{/foreach}{/template}\n", `{"n":0}`},
 	{"c04:ifempty-of-range-loop", "{namespace h}\n/** @param n */\n{template .t}{foreach $i in range($n)}[{$i}]{ifempty}nothing{/foreach}{/template}\n", `{"n":2}`},
 	{"c04:non-finite-float-global", "{namespace h}\n{template .t}{G_INF} {G_NINF} {G_NZERO} {G_INF > 1 ? 'big' : 'small'} {G_NINF + 1}{/template}\n", `{}`},
+	{"c04:builtin-result-in-context", "{namespace h}\n/** @param x\n @param s */\n{template .t}{css isNonnull($x), n}|{css strContains($s, 'a'), m}|{isNonnull($x) ? 'y' : 'n'}|{isNonnull($x) == true}|{strContains($s, 'a') == false}|{not isNonnull($x)}|{not strContains($s, 'b')}|{isNonnull($x) and strContains($s, 'a')}{/template}\n", `{"x":1,"s":"abc"}`},
+	{"c04:builtin-result-in-context", "{namespace h}\n/** @param? x\n @param s */\n{template .t}{css isNonnull($x), n}|{css strContains($s, 'a'), m}|{isNonnull($x) == true}|{strContains($s, 'a') == false}{/template}\n", `{"s":"xyz"}`},
 	{"c04:ok:loops", "{namespace h}\n/** @param l */\n{template .t}{foreach $a in $l}{foreach $b in $l}{$a}{$b}{if isFirst($b)}F{/if}{if isLast($b)}L{/if}{index($b)}{ifempty}E{/foreach}{if isLast($a)}L{/if}|{ifempty}none{/foreach}{for $i in range(1, 7, 2)}{$i}{/for}{/template}\n", `{"l":[1,2,3]}`},
 }
 
